@@ -5,6 +5,8 @@
 // times (ms after the loop started):
 //
 //	w:<c>  write content c in place        r:<c>  atomic replace (temp file + rename)      d  delete the file
+//	m:<c>  write in place and restore the previous mtime (os.Chtimes): same inode, same mtime, and — between
+//	       a and b — same size; to/from c the size differs        p:<c>  atomic replace carrying the old mtime
 //	e      deliver a notification for the config file (then a second, ignored one, as a barrier)
 //	E      same, but with an unclean path ("dir/./config.yml")
 //	o      deliver a notification for another file (ignored by the loop)
@@ -180,7 +182,23 @@ func (o outcome) String() string {
 	return fmt.Sprintf("seq=%s intime=%d at=%s", s, it, at)
 }
 
-func contentBytes(c string) []byte { return []byte("cfg: " + c + "\n") }
+// contentBytes is THE byte representation of a logical content: a and b are equally long, c is longer, so that
+// rewrites between them cover "same length" as well as "different length".
+func contentBytes(c string) []byte {
+	if c == "c" {
+		return []byte("cfg: c\n#\n")
+	}
+	return []byte("cfg: " + c + "\n")
+}
+
+func contentOf(b []byte) string {
+	for _, c := range []string{"a", "b", "c"} {
+		if string(b) == string(contentBytes(c)) {
+			return c
+		}
+	}
+	return "?" // torn / foreign content: never expected with the margins used
+}
 
 // writeInPlace overwrites the (equally long) content without truncating first: on ext4 a truncate-then-write
 // (and a rename over an existing file) forces a synchronous flush, which under I/O load takes tens of ms.
@@ -189,7 +207,9 @@ func writeInPlace(path string, b []byte) error {
 	if err != nil {
 		return err
 	}
-	_, err = f.WriteAt(b, 0)
+	if _, err = f.WriteAt(b, 0); err == nil {
+		err = f.Truncate(int64(len(b))) // never to zero length (that is what makes ext4 flush synchronously)
+	}
 	if cerr := f.Close(); err == nil {
 		err = cerr
 	}
@@ -228,10 +248,7 @@ func runInstance(dir string, sc script) (out outcome) {
 		c := "?"
 		switch {
 		case err == nil:
-			c = strings.TrimSuffix(strings.TrimPrefix(string(b), "cfg: "), "\n")
-			if c == "" || len(c) > 1 {
-				c = "?" // torn / foreign content: never expected with the margins used
-			}
+			c = contentOf(b)
 		case errors.Is(err, os.ErrNotExist):
 			c = "-"
 		default:
@@ -290,6 +307,32 @@ func runInstance(dir string, sc script) (out outcome) {
 		switch o.kind {
 		case "w":
 			if err := writeInPlace(path, contentBytes(o.arg)); err != nil {
+				panic(err)
+			}
+			lastFsOp = time.Since(start)
+		case "m": // rewrite in place (same inode) and put the previous modification time back
+			fi, statErr := os.Stat(path)
+			if err := writeInPlace(path, contentBytes(o.arg)); err != nil {
+				panic(err)
+			}
+			if statErr == nil {
+				if err := os.Chtimes(path, time.Time{}, fi.ModTime()); err != nil {
+					panic(err)
+				}
+			}
+			lastFsOp = time.Since(start)
+		case "p": // atomic replace by a file that carries the previous modification time (cp -p && mv)
+			fi, statErr := os.Stat(path)
+			tmp := path + ".tmp"
+			if err := os.WriteFile(tmp, contentBytes(o.arg), 0o600); err != nil {
+				panic(err)
+			}
+			if statErr == nil {
+				if err := os.Chtimes(tmp, time.Time{}, fi.ModTime()); err != nil {
+					panic(err)
+				}
+			}
+			if err := os.Rename(tmp, path); err != nil {
 				panic(err)
 			}
 			lastFsOp = time.Since(start)
@@ -393,8 +436,12 @@ func genBurst(r *hx.Rng, t0, n, lossy int) []op {
 		o.t = t
 		k := r.Intn(100)
 		switch {
-		case k < 36:
+		case k < 26:
 			o.kind, o.arg = "w", hx.Pick(r, []string{"a", "b", "c"})
+		case k < 38:
+			o.kind, o.arg = "m", hx.Pick(r, []string{"a", "b", "b", "a", "c"})
+		case k < 41:
+			o.kind, o.arg = "p", hx.Pick(r, []string{"a", "b", "c"})
 		case k < 46:
 			o.kind, o.arg = "r", hx.Pick(r, []string{"a", "b", "c"})
 		case k < 54:
@@ -411,7 +458,7 @@ func genBurst(r *hx.Rng, t0, n, lossy int) []op {
 		ops = append(ops, o)
 		t++
 		// notification for the change just made: delivered right away, or lost
-		if (o.kind == "w" || o.kind == "r" || o.kind == "d") && r.Intn(100) < []int{15, 50, 85}[lossy] {
+		if (o.kind == "w" || o.kind == "m" || o.kind == "p" || o.kind == "r" || o.kind == "d") && r.Intn(100) < []int{15, 50, 85}[lossy] {
 			ops = append(ops, op{t: t, kind: "e"})
 			t++
 			i++
@@ -440,7 +487,7 @@ func genScript(r *hx.Rng, maxBurst int) script {
 	for k := 0; k < periods; k++ {
 		base := k * sc.R
 		if k >= 1 && r.Intn(100) < 55 {
-			kind := hx.Pick(r, []string{"w", "w", "r", "d"})
+			kind := hx.Pick(r, []string{"w", "m", "m", "r", "d"})
 			arg := ""
 			if kind != "d" {
 				arg = hx.Pick(r, []string{"a", "b", "c"})
@@ -467,13 +514,24 @@ func genFlipProbe(r *hx.Rng) script {
 	for y == x {
 		y = hx.Pick(r, letters)
 	}
+	if r.Bool() { // the equally long pair: a rewrite changes neither inode nor size
+		x, y = "a", "b"
+		if r.Bool() {
+			x, y = "b", "a"
+		}
+	}
 	sc.init = x
 	put := func(t int, c string) op {
 		if c == "-" {
 			return op{t, "d", ""}
 		}
-		if r.Chance(1, 3) {
+		switch r.Intn(6) {
+		case 0:
 			return op{t, "r", c}
+		case 1:
+			return op{t, "p", c}
+		case 2, 3:
+			return op{t, "m", c}
 		}
 		return op{t, "w", c}
 	}
@@ -519,6 +577,8 @@ func fixedScripts() []script {
 	}
 	withEnd := func(sc script, end int) script { sc.end = end; return sc }
 	W := func(t int, c string) op { return op{t, "w", c} }
+	M := func(t int, c string) op { return op{t, "m", c} }
+	P := func(t int, c string) op { return op{t, "p", c} }
 	Rp := func(t int, c string) op { return op{t, "r", c} }
 	D := func(t int) op { return op{t, "d", ""} }
 	E := func(t int) op { return op{t, "e", ""} }
@@ -543,6 +603,13 @@ func fixedScripts() []script {
 		mk("probe", tickless, "a", W(100, "b"), E(101), D(102), E(103), W(104, "a"), E(105), D(106), E(107)),
 		mk("probe", 600, "-", W(300, "a"), E(301), D(302), E(303), Rp(304, "a"), E(305), Rp(306, "c"), E(307), Rp(308, "a")),
 		mk("probe", tickless, "b", W(100, "c"), E(101), W(102, "b"), E(103), W(104, "a"), E(105), W(500, "b"), E(501), W(502, "a"), E(503)),
+		// probes: the content changes but the file metadata does not (same inode, size and mtime)
+		mk("probe", tickless, "a", M(100, "b"), E(101)),
+		mk("probe", 600, "a", M(300, "b")),
+		mk("probe", 600, "b", M(300, "c"), E(301)), // different size, old mtime
+		mk("probe", tickless, "a", P(100, "b"), E(101)),
+		mk("probe", tickless, "a", W(100, "b"), E(101), M(500, "a"), E(501), M(900, "b"), E(901)),
+		mk("probe", 700, "b", M(300, "a"), E(301), M(302, "b"), E(303), M(304, "a")),
 		// ordinary behaviour
 		mk("basic", 600, "a"),
 		mk("basic", 600, "a", W(300, "b")),                                  // notification lost: reconciliation finds it
